@@ -7,6 +7,7 @@ correspondence suite ties to the real `spawn_chitchat` loop driven through a scr
 under the paused clock.
 -/
 import ChitchatModel.Model.Server
+import ChitchatModel.Model.Udp
 namespace Chitchat
 
 def noPanic (script : Nat → SendResult) : Prop := ∀ k, script k ≠ .panic
@@ -136,6 +137,47 @@ as `panicked`, which the termination watcher turns into the "Chitchat server pan
 theorem C19_panic_reported (s : SrvState) (script : Nat → SendResult) (h : script s.sends = .panic) :
     (s.send script).status = .panicked := by
   unfold SrvState.send; rw [h]
+
+/-! ### The UDP socket wrapper (`transport/udp.rs`) -/
+
+/-- **C19 (a failed send leaves no trace).** What `UdpSocket::send` puts on the wire, and whether it
+succeeds, does not depend on the state any earlier call — failed or not — left the socket in. -/
+theorem C19_udp_send_history_free (C : Compressor) (s s' : UdpSock) (m : Msg) (dest : Dest) :
+    (s.send C m dest).map (·.2) = (s'.send C m dest).map (·.2) := by
+  unfold UdpSock.send
+  cases encMsg C m <;> rfl
+
+/-- **C19 (exactly the message).** A successful send puts exactly the serialization of that message
+on the wire; it fails exactly when the destination is unreachable or the serialization exceeds
+65 507 bytes, and then nothing is sent. -/
+theorem C19_udp_send_exact (C : Compressor) (s : UdpSock) (m : Msg) (dest : Dest) (b : Bytes)
+    (henc : encMsg C m = .ok b) :
+    ∃ s', s.send C m dest = .ok (s', if dest = .peer ∧ b.length ≤ maxDatagram then some b else none) := by
+  unfold UdpSock.send
+  rw [henc]
+  simp only [List.nil_append, osAccepts]
+  refine ⟨{ bufSend := b }, ?_⟩
+  by_cases h1 : dest = .peer <;> by_cases h2 : b.length ≤ maxDatagram <;> simp [h1, h2]
+
+/-- After any send, a later small message to a reachable peer is sent: failures do not accumulate. -/
+theorem C19_udp_send_after_failure (C : Compressor) (s : UdpSock) (m1 m2 : Msg) (d1 : Dest) (b2 : Bytes)
+    (s1 : UdpSock) (w1 : Option Bytes) (_h1 : s.send C m1 d1 = .ok (s1, w1))
+    (henc : encMsg C m2 = .ok b2) (hlen : b2.length ≤ maxDatagram) :
+    ∃ s2, s1.send C m2 .peer = .ok (s2, some b2) := by
+  obtain ⟨s2, h⟩ := C19_udp_send_exact C s1 m2 .peer b2 henc
+  exact ⟨s2, by rw [h]; simp [hlen]⟩
+
+/-- **C19 (undecodable datagrams are skipped).** `receive_one` yields a message exactly when the
+payload decodes; anything else is dropped without an error. -/
+theorem C19_udp_recv_skip (C : Compressor) (datagram : Bytes) :
+    UdpSock.receiveOne C datagram = none ↔ decMsg C datagram = none := by
+  unfold UdpSock.receiveOne
+  cases decMsg C datagram <;> simp
+
+example : (({} : UdpSock).send ⟨fun _ => none, fun _ => none⟩ .badCluster .peer).map (·.2)
+    = .ok (some [0x53, 0xB0, 0, 3]) := by rfl
+example : (({ bufSend := [1, 2, 3] } : UdpSock).send ⟨fun _ => none, fun _ => none⟩ .badCluster .unreachable).map (·.2)
+    = .ok none := by rfl
 
 /-! ### Non-vacuity -/
 example : (srvRun 1 (fun k => if k % 2 = 0 then .err else .ok)
